@@ -23,9 +23,9 @@ def cases(tier):
         L.append(fsm_case('C11', fx, 'queue_overflow', base + ['ENTRY=3', 'NREQ=%d' % (nc + 2), 'EXT_KINDS=0x9e', 'CB_BUDGET=0'], witness=True, nreq=nc, **kw))
         if tier == 'thorough': L.append(fsm_case('C11', fx, 'reset', base + ['ENTRY=4', 'CB_BUDGET=0'], witness=False, **kw))
         # replayTransitions() with histories of any length up to 15 (capacity is NC*LIMIT)
-        rmax = nc * 2 + 3                                         # capacity of the history is NC * SUBSTITUTION_LIMIT (2 here): up to 3 beyond it
+        rmax = nc * 2 + (1 if tier == 'quick' else 3)            # capacity of the history is NC * SUBSTITUTION_LIMIT (2 here): 1 (quick) / 3 (thorough) beyond it
         L.append(fsm_case('C11', fx, 'replay_overlong', base + ['ENTRY=13', 'EXT_KINDS=0x9e', 'CB_BUDGET=0', 'REPLAY_MAX=%d' % rmax], witness=True,
-                          **dict(kw, unwind_extra=[(r'^main\.', 1030), (r'vf_replay_many|replayTransitions|applyRequests', rmax + 3)])))
+                          **dict(kw, unwind_extra=[(r'^main\.', 1030), (r'vf_replay_many', 18), (r'replayTransitions|applyRequests', rmax + 3)])))
         L[-1].mem_est = 12
     # the library's own consistency assertions (HFSM2_ENABLE_ASSERT routed through the HFSM2_VERIF hook)
     for fam in (['f5'] if tier == 'quick' else ['f5', 'foroot', 'f3w']):
@@ -48,7 +48,7 @@ def run(tier, seed):
         return 1
     return execute('C11', tier, seed, L, COMMON_ASSUME + [
         'CBMC standard checks ON for the memory-safety cases: array bounds, pointer validity/dereference, pointer-arithmetic overflow, undefined shifts, signed overflow, division by zero; the instance sits between guard bands that are compared after the step (native replay symptom)',
-        'request budgets are NOT capped at the queue capacity here: callbacks issue up to NC+2 requests in one step, NC+2 external requests are queued before update(), replayTransitions() receives histories of any length up to 3 beyond the capacity; afterwards Inv must hold (excess rejected without corrupting state)',
+        'request budgets are NOT capped at the queue capacity here: callbacks issue up to NC+2 requests in one step, NC+2 external requests are queued before update(), replayTransitions() receives histories of any length up to 1 (quick) / 3 (thorough) beyond the capacity; afterwards Inv must hold (excess rejected without corrupting state)',
         'the library\'s own assertions: fixture built with HFSM2_ENABLE_ASSERT + the HFSM2_VERIF hook; hfsm2_verif_break() is a failing assertion in the harness',
         'never allocates: the IR of every fixture references no external symbol besides the harness stubs (checked on the translated unit); sizeof(Instance) is a compile-time constant of the type',
         'plan pool at capacity is C07 (bounds checks on), serialization buffer accesses are C08 (bounds checks on), a copy whose original is gone is C10'])
